@@ -213,6 +213,7 @@ func c09Run(e *core.Env) {
 	}
 	xs := Dense(k, w)
 	xs = append(xs, Edge(EdgeExps)...)
+	xs = append(xs, longOperands()...) // more than 128 digits discarded in one rounding
 	var ctxs []CtxCase
 	for _, p := range precs {
 		for _, r := range Ranges(p, true) {
@@ -307,9 +308,9 @@ func init() {
 		Rule:  "every (x, target exponent, context, rounding mode) point is executed and compared with an exact integer oracle (x/10^e rounded by the GDA decision table from the exact quotient and remainder); RoundToIntegralValue/Exact, Ceil and Floor on the same x; non-trivial = digits dropped, invalid, or a fractional operand",
 		Bounds: func(tier string) string {
 			if tier == "thorough" {
-				return "x in DENSE(4,7) + EDGE; e in [-9,7] + {Etiny-1, Etiny, Emax, Emax+1}; p in {1,2,3,4,5,7} x 11 exponent ranges x 8 modes; Ceil/Floor also at precision 0"
+				return "x in DENSE(4,7) + EDGE + LONG (129-300 digits); e in [-9,7] + {Etiny-1, Etiny, Emax, Emax+1}; p in {1,2,3,4,5,7} x 11 exponent ranges x 8 modes; Ceil/Floor also at precision 0"
 			}
-			return "x in DENSE(3,5) + EDGE; e in [-9,7] + {Etiny-1, Etiny, Emax, Emax+1}; p in {1,2,3} x 6 exponent ranges x 8 modes; Ceil/Floor also at precision 0"
+			return "x in DENSE(3,5) + EDGE + LONG (129-300 digits); e in [-9,7] + {Etiny-1, Etiny, Emax, Emax+1}; p in {1,2,3} x 6 exponent ranges x 8 modes; Ceil/Floor also at precision 0"
 		},
 		Run:    c09Run,
 		Replay: c09Replay,
